@@ -238,6 +238,9 @@ var c09Random = probe.Define("C09", "exponents", func(t *rapid.T) c09RandIn {
 		if err != nil {
 			return probe.Fail("GenerateRandomNumber failed with a working random source: %v", err)
 		}
+		if v1 == nil {
+			return probe.Fail("GenerateRandomNumber returned neither a number nor an error")
+		}
 		if v1.Cmp(min) < 0 || v1.Cmp(max) >= 0 {
 			return probe.Fail("exponent outside [2^128, 2^2048): %d bits", v1.BitLen())
 		}
@@ -249,7 +252,7 @@ var c09Random = probe.Define("C09", "exponents", func(t *rapid.T) c09RandIn {
 			return probe.Fail("only %d octets were drawn from the random source for an exponent of up to 2048 bits", consumed)
 		}
 		v2, err, _ := draw(in.Stream, 0)
-		if err != nil || v1.Cmp(v2) != 0 {
+		if err != nil || v2 == nil || v1.Cmp(v2) != 0 {
 			return probe.Fail("the same random stream gives different exponents: not drawn from the random source alone")
 		}
 		other := make([]byte, len(in.Stream)+300)
@@ -260,7 +263,7 @@ var c09Random = probe.Define("C09", "exponents", func(t *rapid.T) c09RandIn {
 			}
 		}
 		v3, err, _ := draw(other, 0)
-		if err != nil {
+		if err != nil || v3 == nil {
 			return probe.Fail("GenerateRandomNumber failed: %v", err)
 		}
 		if v3.Cmp(v1) == 0 {
@@ -348,7 +351,7 @@ var c09Table = probe.Define("C09", "prime-identity", func(t *rapid.T) c09In { pa
 	// two calls with the system random source differ
 	a, err1 := security.GenerateRandomNumber()
 	b, err2 := security.GenerateRandomNumber()
-	if err1 != nil || err2 != nil {
+	if err1 != nil || err2 != nil || a == nil || b == nil {
 		return probe.Fail("GenerateRandomNumber with the system source: %v %v", err1, err2)
 	}
 	if a.Cmp(b) == 0 {
